@@ -168,6 +168,8 @@ def m2(ctx):
 def m3(ctx):
     obs = []
     for fi in ctx.P.all_funcs():
+        if ctx.absorbed(fi):
+            continue
         if not fi.module.name.startswith("xandikos.store"):
             continue
         for n in walk_local(fi.node):
@@ -281,6 +283,8 @@ def m5(ctx):
     from ..dataflow import DefUse
     obs = []
     for fi in ctx.P.all_funcs():
+        if ctx.absorbed(fi):
+            continue
         if not fi.module.name.startswith("xandikos.store") or (fi.cls is not None and fi.cls.qualname == FILE_MD):
             continue
         cfg = None
